@@ -864,6 +864,47 @@ def accepted_symbols(src, cname, runner):
     return out
 
 
+def sinedvr_grid_rule(chk, src):
+    """abstract run of BasisSineDVR.__init__ on exact numbers (xnp): the DVR grid is the equidistant interior grid of the box the object reports (xi, xf, L), and with
+    endpoint=True its first and last points are the bounds the caller gave"""
+    from fractions import Fraction as Fr
+    from ..syminterp import SymInterp, Sym, Blob
+    from .. import xnp
+    BASIS = "renormalizer/model/basis.py"
+    chk.rule("sinedvr-grid", "BasisSineDVR.__init__ (abstract run on exact numbers): dvr_x[k] = xi + (k+1) L / (nbas+1) for the box (xi, xf, L) the object stores; endpoint=True puts the first and "
+             "last grid point on the bounds given by the caller", 4)
+    fi = src.func(BASIS, "BasisSineDVR.__init__")
+    for nbas, xi, xf, endpoint in ((4, Fr(0), Fr(3), True), (5, Fr(-2), Fr(2), True), (4, Fr(0), Fr(5), False), (3, Fr(1), Fr(2), False)):
+        me = Sym("basis")
+        npx = xnp.namespace()
+        npx.__dict__["sin"] = lambda x: Blob("sin")
+        npx.__dict__["pi"] = Blob("pi")
+        npx.__dict__["tensordot"] = lambda a, b, axes=0: Blob("outer")
+        npx.__dict__["sqrt"] = lambda x: Blob("sqrt")
+        it = SymInterp(src, None, {"np": npx, "super": lambda *a: Sym("super", __init__=lambda *a2, **k2: None)})
+        it.call_function(fi, [me, "dof", nbas, xi, xf], {"endpoint": endpoint})
+        probs = []
+        try:
+            grid = [Fr(v) for v in xnp.asx(me.dvr_x).flat]
+            sxi, sxf, sl = Fr(me.xi), Fr(me.xf), Fr(me.L)
+        except (AttributeError, TypeError, ValueError) as e:
+            probs.append(f"{type(e).__name__}: {e}")
+            grid = None
+        if grid is not None:
+            if sl != sxf - sxi:
+                probs.append(f"L = {sl}, xf - xi = {sxf - sxi}")
+            want = [sxi + (k + 1) * sl / (nbas + 1) for k in range(nbas)]
+            if grid != want:
+                probs.append(f"grid {[str(v) for v in grid]}; the interior grid of the stored box ({sxi}, {sxf}) is {[str(v) for v in want]}")
+            if endpoint and (grid[0], grid[-1]) != (xi, xf):
+                probs.append(f"endpoint=True: first / last grid point {grid[0]} / {grid[-1]}; the caller gave the bounds {xi} / {xf}")
+            if not endpoint and (sxi, sxf) != (xi, xf):
+                probs.append(f"endpoint=False: the stored box is ({sxi}, {sxf}), the caller gave ({xi}, {xf})")
+        chk.ob("sinedvr-grid", f"BasisSineDVR(nbas={nbas}, xi={xi}, xf={xf}, endpoint={endpoint})", not probs, fi.where, probs[:2] or "grid of the stored box", "equidistant interior grid of the stored box",
+               line=fi.node.lineno, detail="potentials without analytic matrix elements are evaluated on dvr_x: a grid shifted against the box the sine functions live in gives wrong matrix elements: "
+               + (probs[0] if probs else ""))
+
+
 def run(chk):
     src = chk.src
     Mat2.SRC = src
@@ -885,6 +926,7 @@ def run(chk):
     chk.rule("sho-commutator", "BasisSHO: x p - p x == i (from the x and p branches, and from the 'x p' / 'p x' branches)", 2)
     chk.rule("sho-real", "BasisSHO: `.real` is applied only to operators with real coefficients", 1)
     chk.rule("sho-dvr", "BasisSHO(dvr=True): every x/p-type symbol is returned in the DVR-rotated basis", 6)
+    sinedvr_grid_rule(chk, src)
     chk.rule("sinedvr-algebra", "BasisSineDVR: branch == (xi + u)^k [d | p^2] expanded over the helper monomials, in written order", 8)
     chk.rule("pauli", "BasisHalfSpin / BasisSimpleElectron literal matrices satisfy Pauli / fermion relations (exact)", 12)
     chk.rule("multi-electron", "BasisMultiElectron(Vac): a^dagger_i a_j sets element [i, j]; a_i a^dagger_j sets [j, i]", 4)
